@@ -280,7 +280,7 @@ theorem pres_mov {cl : CodeLaws ops} {s s1 s' : St H} {K : List FDesc} {t : LamT
       have chk := ai.chk
       cases st <;> simp only [checkOp, Bool.and_eq_true] at chk <;> try (exact absurd chk Bool.false_ne_true)
       obtain ⟨c1, c2⟩ := chk
-      have hnb : notBpOffset (ops.fetch s.heap s.ipL (s.ipO + 1 + 1)) = true := by
+      have hnb : dstOk (ops.fetch s.heap s.ipL (s.ipO + 1 + 1)) = true := by
         rw [ai.fetch]; exact c1
       obtain ⟨q1, q2, q3, q4, q5⟩ := storeOperand_ok (cl := cl) (s := { s with ipO := s.ipO + 1 + 1 }) ai.hw.inv hso hnb
       refine retop_same ai.hw ai.ht ai.hst _ q1 q2 q3 ?_ q5
@@ -312,7 +312,7 @@ theorem pres_movImm {cl : CodeLaws ops} {s s1 s' : St H} {K : List FDesc} {t : L
       have chk := ai.chk
       cases st <;> simp only [checkOp, Bool.and_eq_true] at chk <;> try (exact absurd chk Bool.false_ne_true)
       obtain ⟨c1, c2⟩ := chk
-      have hnb : notBpOffset (ops.fetch s.heap s.ipL (s.ipO + 1 + 1)) = true := by
+      have hnb : dstOk (ops.fetch s.heap s.ipL (s.ipO + 1 + 1)) = true := by
         rw [ai.fetch]; exact c1
       obtain ⟨q1, q2, q3, q4, q5⟩ := storeOperand_ok (cl := cl) (s := { s with ipO := s.ipO + 1 + 1 }) ai.hw.inv hso hnb
       refine retop_same ai.hw ai.ht ai.hst _ q1 q2 q3 ?_ q5
